@@ -168,3 +168,61 @@ def run_len_minus(ck, F, rule="C08.slice-len-minus-const-guarded"):
                     else:
                         ck.bad(rule, key, "%s subtracts %s from the length of its `&[u8]` input without comparing the length first: shorter input underflows (debug: panic; "
                                "release: wraps and the following slice index panics)" % (fn["id"], str(k[0] if isinstance(k, (list, tuple)) else k)), b.loc(bl))
+
+
+# ---------------------------------------------------------------------------------------------------------
+def run_variant_boundaries(ck, F, rule="C08.variant-dictionary-offsets-on-boundaries"):
+    ck.rule(rule, "VariantMetadata::with_full_validation validates the dictionary's value buffer as one UTF-8 string; both arms of the `is_sorted` dispatch must then "
+            "also establish that every offset is a character boundary (checked `str::get`, `is_char_boundary`), or an entry that starts inside a character is "
+            "'validated' and the panic-free accessors panic", floor=2)
+    from . import arms
+    fid = "parquet_variant::variant::metadata::VariantMetadata::<'m>::with_full_validation"
+    fn = F.resolve(fid)
+    if fn is None:
+        ck.missing_anchor(fid, rule)
+        return
+    b = Body(fn)
+    crate = F.crate("parquet_variant")
+    closures = {c["id"]: c for c in crate.closures_of.get(fn["id"], [])}
+    EVID = re.compile(r"str::<impl str>::get$|::is_char_boundary$|str::get$|core::str::<impl str>::get$")
+    found = False
+    for sb in range(b.n):
+        t = b.term(sb)
+        if t["k"] != "switch":
+            continue
+        locs, _ = b.back_slice(op_local(t["d"])) if op_local(t["d"]) is not None else (set(), [])
+        reads_sorted = False
+        for x in locs:
+            for d in b.defs().get(x, []):
+                if d[0] == "s":
+                    for o in ([d[3][1]] if d[3][0] == "use" else []):
+                        p = op_place(o)
+                        if p and any(isinstance(e, list) and e[0] == "f" and e[2] == "is_sorted" for e in p[1]):
+                            reads_sorted = True
+        if not reads_sorted:
+            continue
+        found = True
+        regions = arms.arm_regions(b, sb)
+        for i, (tg, blocks) in enumerate(sorted(regions.items())):
+            ev = False
+            for bl in blocks:
+                tt = b.term(bl)
+                if tt["k"] == "call":
+                    if EVID.search(callee(tt) or ""):
+                        ev = True
+                    for a in tt["args"]:      # closures handed to iterator adaptors
+                        l = op_local(a)
+                        for dd in b.defs().get(l, []) if l is not None else []:
+                            if dd[0] == "s" and dd[3][0] == "agg" and dd[3][1][0] == "closure" and dd[3][1][1] in closures:
+                                if any(EVID.search(callee(ct) or "") for _, ct in Body(closures[dd[3][1][1]]).calls()):
+                                    ev = True
+            key = "is_sorted arm #%d" % i
+            if not blocks:
+                continue
+            if ev:
+                ck.ok(rule, key, "offsets are checked against character boundaries")
+            else:
+                ck.bad(rule, key, "one arm of the is_sorted dispatch in with_full_validation marks the metadata validated without checking that the dictionary offsets are "
+                       "character boundaries of the (whole-buffer validated) values", b.loc(tg))
+    if not found:
+        ck.bad(rule, "dispatch", "no dispatch on header.is_sorted found in with_full_validation (anchor moved)", "%s:%s" % (fn["file"], fn["line"]))
